@@ -20,6 +20,8 @@ def main():
     sid, prop, patch, demo, demo_name = a[:5]
     opt = dict(zip(a[5::2], a[6::2]))
     demo_args = opt.get("--demo-args", "")
+    demo_env = opt.get("--demo-env", "")
+    demo_tail = opt.get("--demo-tail", "")
     checks = [c for c in opt.get("--checks", prop).split(",") if c]
     wt = opt.get("--wt", f"/tmp/seed_{prop}")
     meta = {"seed_id": sid, "property": prop, "needs_to_manifest": opt.get("--needs", ""), "source": "independent sub-agent (given only the property text and a scratch worktree)",
@@ -42,11 +44,11 @@ def main():
         ok_build = "error" not in o1
         meta["ran"].append({"cmd": "cargo build --features verif-hooks / dudect (with patch)", "result": "ok" if ok_build else "FAIL"})
         shutil.copy(demo, os.path.join(wt, "tests", demo_name + ".rs"))
-        rc_with, o_with = sh(f"cargo test --offline {demo_args} --test {demo_name} 2>&1 | grep -E '^test result|panicked|error' | sort -r | head -5", cwd=wt)
+        rc_with, o_with = sh(f"{demo_env} cargo test --offline {demo_args} --test {demo_name} {demo_tail} 2>&1 | grep -E '^test result|panicked|error' | sort -r | head -5", cwd=wt)
         demo_fails = "FAILED" in o_with or "panicked" in o_with or ("failed" in o_with and "0 failed" not in o_with)
         meta["ran"].append({"cmd": f"cargo test --offline {demo_args} --test {demo_name} (with patch)", "result": "fails" if demo_fails else "PASSES(unexpected)", "tail": o_with[-300:]})
         sh(f"git apply -R {patch}", cwd=wt)
-        rc_wo, o_wo = sh(f"cargo test --offline {demo_args} --test {demo_name} 2>&1 | grep -E '^test result|panicked|error' | head -5", cwd=wt)
+        rc_wo, o_wo = sh(f"{demo_env} cargo test --offline {demo_args} --test {demo_name} {demo_tail} 2>&1 | grep -E '^test result|panicked|error' | head -5", cwd=wt)
         demo_passes = "test result: ok" in o_wo and "FAILED" not in o_wo
         meta["ran"].append({"cmd": f"cargo test --offline {demo_args} --test {demo_name} (without patch)", "result": "passes" if demo_passes else "FAILS(unexpected)", "tail": o_wo[-300:]})
         sh("git checkout -q -- . && git clean -qfd -e target", cwd=wt)
@@ -80,7 +82,7 @@ def main():
     os.makedirs(d, exist_ok=True)
     shutil.copy(patch, os.path.join(d, "patch.diff"))
     shutil.copy(demo, os.path.join(d, "demo.rs"))
-    meta["demo"] = {"place_at": f"tests/{demo_name}.rs", "run": f"cargo test --offline {demo_args} --test {demo_name}".replace("  ", " ")}
+    meta["demo"] = {"place_at": f"tests/{demo_name}.rs", "run": f"{demo_env} cargo test --offline {demo_args} --test {demo_name} {demo_tail}".replace("  ", " ").strip()}
     json.dump(meta, open(os.path.join(d, "meta.json"), "w"), indent=1)
 
 main()
